@@ -914,7 +914,7 @@ func accountedReceive(s *Stage, pr *proc, st *ir.Step) string {
 			}
 		}
 	}
-	if wait == nil || !instrDominates(wait.Instr, st.Instr) {
+	if wait == nil || !(instrDominates(wait.Instr, st.Instr) || wait.Instr.Parent() != st.Instr.Parent() && precededOnPaths(pr.an, st.Instr, isWgWait)) {
 		return "no wg.Wait dominating the receive"
 	}
 	// number of receives: trip count of the innermost loop (or 1)
@@ -1177,4 +1177,57 @@ func doesStageWork(s *Stage, pr *proc) bool {
 		}
 	}
 	return false
+}
+
+// precededOnPaths: on every analysed path, the instruction target is preceded by a step satisfying pred - on the same
+// segment, or on every chain of segments leading to the loop head the segment starts from (used when the two
+// instructions live in different functions, one of them inlined, so that block dominance does not apply).
+func precededOnPaths(an *ir.Analysis, target ssa.Instruction, pred func(*ir.Step) bool) bool {
+	has := func(p *ir.Path, upto int) bool {
+		for i := 0; i < upto && i < len(p.Steps); i++ {
+			if pred(&p.Steps[i]) {
+				return true
+			}
+		}
+		return false
+	}
+	// greatest fixpoint: a head is covered when every arrival is covered
+	covered := map[*ssa.BasicBlock]bool{}
+	for _, h := range an.Headers {
+		covered[h] = true
+	}
+	for changed := true; changed; {
+		changed = false
+		for _, h := range an.Headers {
+			if !covered[h] {
+				continue
+			}
+			for _, ps := range an.Segs {
+				for _, q := range ps {
+					if q.To != h {
+						continue
+					}
+					if has(q, len(q.Steps)) || q.From != nil && covered[q.From] {
+						continue
+					}
+					covered[h] = false
+					changed = true
+				}
+			}
+		}
+	}
+	found := false
+	for _, p := range an.AllPaths() {
+		for i := range p.Steps {
+			if p.Steps[i].Instr != target {
+				continue
+			}
+			found = true
+			if has(p, i) || p.From != nil && covered[p.From] {
+				continue
+			}
+			return false
+		}
+	}
+	return found
 }
